@@ -1,0 +1,15 @@
+// Copyright (c) HashiCorp, Inc.
+// SPDX-License-Identifier: MPL-2.0
+
+//go:build !verif
+
+package protocol
+
+import (
+	"context"
+	"net"
+)
+
+// simDial is a deterministic-simulation transport hook; without the "verif"
+// build tag it compiles to nothing.
+func simDial(context.Context, string) (net.Conn, bool, error) { return nil, false, nil }
